@@ -285,6 +285,25 @@ def run_special(arg):
                     # accepted: then it must at least not have swallowed the sign into a count
                     if sp.charge == 0:
                         viols.append((f"C08:sign-inside-name-misread:{cfgname}:{sign}", f"[{cfgname}] Species({name!r}) is read as element_count={dict(sp.element_count)} charge={sp.charge}: a charge sign in front of a count was taken for part of the count", {"config": cfgname, "name": name}))
+        # symbols added through add_known_elements: a new symbol, and a symbol promoted from the marker list
+        # (documented: "move to element list") - afterwards both are configured elements like any other
+        if cfgname == "default":
+            Species.reset()
+            Species.set_known_elements(list(Species.default_elements))
+            Species.set_known_pseudoelements(list(Species.default_pseudoelements))
+            Species.add_known_elements(["Zz", "M", "X"])
+            for name, ec, q in (("M", {"M": 1}, 0), ("M+", {"M": 1}, 1), ("MH", {"M": 1, "H": 1}, 0), ("MgM+", {"Mg": 1, "M": 1}, 1), ("ZzH2", {"Zz": 1, "H": 2}, 0),
+                                ("XH-", {"X": 1, "H": 1}, -1), ("H2", {"H": 2}, 0), ("oH2", {"H": 2}, 0)):
+                n += 1
+                try:
+                    sp = Species(name)
+                    got = (dict(sp.element_count), sp.charge)
+                except Exception as e:
+                    viols.append((f"C08:added-element:raises", f"after add_known_elements(['Zz','M','X']): Species({name!r}) raises {e!r}", {"config": cfgname, "name": name}))
+                    continue
+                if got != (ec, q):
+                    viols.append((f"C08:added-element:{'promoted-marker' if 'M' in ec or 'X' in ec else 'new-symbol'}", f"after add_known_elements(['Zz','M','X']): Species({name!r}) has (element_count, charge) = {got}, expected {(ec, q)}", {"config": cfgname, "name": name}))
+            Species.reset()
     return cfgname, n, viols
 
 
